@@ -118,3 +118,29 @@ def cli_view(scratch, gaf_text, gfa_path, fmt):
     if lines and lines[-1] == "":
         lines = lines[:-1]
     return p.returncode, lines
+
+
+def shrink_context(recs, i, test):
+    """A failure seen for recs[i] inside a file may depend on the records before it. Returns the smallest of
+    [recs[i]] / earlier records with the same path + recs[i] / the whole prefix for which test(list) still fails on its
+    last record; the whole prefix if none does (so that the stored case always replays)."""
+    one = [recs[i]]
+    if test(one):
+        return one
+    same = [r for r in recs[:i] if r.path == recs[i].path][-3:] + one
+    if len(same) > 1 and test(same):
+        return same
+    for k in (2, 4, 8, 16, 64):
+        if k < i + 1:
+            cand = recs[i + 1 - k : i + 1]
+            if test(cand):
+                return cand
+    return recs[: i + 1]
+
+
+def gfa_text(g, L):
+    """The rGFA text of a layout. Line order is part of the input space: unscaled layouts are written S-then-L in
+    SO order, the x37 layouts with all L lines first and the S lines in reverse order."""
+    if L.scale == 1:
+        return g.text()
+    return "".join(l.line() + "\n" for l in g.links) + "".join(x.line() + "\n" for x in reversed(list(g.segs.values())))
